@@ -393,7 +393,12 @@ def run_property(pid, tier, seed, replay=None):
     for v in to_report:
         line = v["line"]
         if shr is not None:
-            def still(l2, _kind=v["kind"]):
+            budget = [250]
+
+            def still(l2, _kind=v["kind"], budget=budget):
+                budget[0] -= 1
+                if budget[0] < 0 or len(l2) > 20000:
+                    return False
                 try:
                     mo2 = run_model([l2])[0]
                 except BrokenCheck:
